@@ -613,6 +613,98 @@ func c02EngineFamily(cf *CaseFile, r *Rng, thorough bool, maxlen int) error {
 	return nil
 }
 
+// ---------- family "enginecsv": the same script shape with other csv values, so that
+// every branch of the model's number decoding / BIP-112 check is compared with btcd
+
+var c02OtherCsvs = []uint32{0, 1, 2, 16, 17, 127, 128, 255, 256, 32767, 32768, 65535, 65536, 65537,
+	1<<22 - 1, 1 << 22, 1<<22 | 5, 1<<31 - 1, 1 << 31, 1<<31 | 5, 0xffffffff}
+
+func c02EngineCsvFamily(cf *CaseFile, r *Rng, thorough bool) error {
+	var jobs []*c02Job
+	csvOf := map[*c02World]uint32{}
+	maxlen := 3
+	if thorough {
+		maxlen = 4
+	}
+	stacks := c02Stacks(maxlen)
+	for _, csv := range c02OtherCsvs {
+		w := &c02World{ch: c02Chain{id: -1, name: fmt.Sprintf("csv%d", csv)}, amt: 100000, pre: map[int][]byte{}}
+		w.keys[0], w.keys[1], w.keys[2] = c02RandKey(r), c02RandKey(r), c02RandKey(r)
+		for t, n := range map[int]int{tagP32: 32, tagW32: 32, tagP31: 31, tagP33: 33} {
+			b := make([]byte, n)
+			for i := range b {
+				b[i] = byte(r.U64())
+			}
+			b[0] = byte(0x10 + t)
+			w.pre[t] = b
+		}
+		h := sha256.Sum256(w.pre[tagP32])
+		var err error
+		w.redeem, err = onchain.GetOpeningTxScript(w.keys[0].PubKey().SerializeCompressed(), w.keys[1].PubKey().SerializeCompressed(), h[:], csv)
+		if err != nil {
+			return err
+		}
+		ph := sha256.Sum256(w.redeem)
+		w.pk = append([]byte{0x00, 0x20}, ph[:]...)
+		csvOf[w] = csv
+		low := csv & 0xffff
+		seqs := []uint32{0, low, low - 1, csv, csv | 1<<22, csv &^ (1 << 31), 0xffff, 1<<22 | 0xffff, 0x7fffffff, 0xffffffff}
+		seen := map[uint32]bool{}
+		for fl := range c02Flagsets {
+			for _, seq := range seqs {
+				if seen[seq] && fl == 0 {
+					continue
+				}
+				seen[seq] = true
+				jobs = append(jobs, &c02Job{w: w, flags: fl, seq: seq, ver: 2, maxlen: maxlen})
+			}
+			jobs = append(jobs, &c02Job{w: w, flags: fl, seq: low, ver: 1, maxlen: maxlen})
+		}
+	}
+	var wg sync.WaitGroup
+	sem := make(chan struct{}, 16)
+	for _, j := range jobs {
+		wg.Add(1)
+		sem <- struct{}{}
+		go func(j *c02Job) {
+			defer wg.Done()
+			defer func() { <-sem }()
+			j.acc, j.err = c02Run(j.w, j.seq, j.ver, c02Flagsets[j.flags], stacks)
+		}(j)
+	}
+	wg.Wait()
+	seenKey := map[string]bool{}
+	for _, j := range jobs {
+		if j.err != nil {
+			return j.err
+		}
+		csv := csvOf[j.w]
+		key := fmt.Sprintf("enginecsv|%d|%d|%d|%d", csv, j.flags, j.seq, j.ver)
+		if seenKey[key] {
+			continue
+		}
+		seenKey[key] = true
+		var accs []string
+		var accNames [][]string
+		for _, a := range j.acc {
+			xs := make([]string, len(a))
+			ns := make([]string, len(a))
+			for i, t := range a {
+				xs[i] = fmt.Sprintf("%d", t)
+				ns[i] = c02TagNames[t]
+			}
+			accs = append(accs, "["+strings.Join(xs, ";")+"]%N")
+			accNames = append(accNames, ns)
+		}
+		term := fmt.Sprintf("CEngineCsv %d%%Z %d%%N %d%%Z %s %d %s", csv, j.flags, j.seq, CoqZ(int64(j.ver)), j.maxlen, CoqList(accs))
+		cf.Add(term, key, true, fmt.Sprintf("enginecsv:accepted%d", len(j.acc)),
+			map[string]interface{}{"family": "enginecsv", "fn": "GetOpeningTxScript+txscript.Engine.Execute", "csv": csv,
+				"flags": map[int]string{0: "standard", 1: "consensus"}[j.flags], "sequence": j.seq, "tx_version": j.ver,
+				"max_witness_items": j.maxlen, "witness_script": hex.EncodeToString(j.w.redeem), "accepted_witness_stacks": accNames})
+	}
+	return nil
+}
+
 func runC02(args []string) error {
 	fs := flag.NewFlagSet("c02", flag.ExitOnError)
 	out := fs.String("out", "/verif/work/C02", "output dir")
@@ -624,7 +716,7 @@ func runC02(args []string) error {
 	r := NewRng(*seed)
 	imports := "From PS Require Import Base.ScriptOps Model.ScriptInterp Model.OpeningScript Model.C02Corr."
 	fams := []*CaseFile{}
-	for i := 0; i < 3; i++ {
+	for i := 0; i < 4; i++ {
 		fams = append(fams, NewCaseFile(imports, "c02_case", "c02_check", "c02_monitor"))
 	}
 	c02ScriptFamily(fams[0], r, *n)
@@ -632,6 +724,9 @@ func runC02(args []string) error {
 		return err
 	}
 	if err := c02EngineFamily(fams[2], r, *thorough, *maxlen); err != nil {
+		return err
+	}
+	if err := c02EngineCsvFamily(fams[3], r, *thorough); err != nil {
 		return err
 	}
 	// interleave the families so that the expensive engine cases spread evenly over the shards
